@@ -11,44 +11,29 @@ namespace Ledger.Api
 theorem Res.ofDec_ne_fault {α : Type} (x : Dec α) (m : String) : Res.ofDec x ≠ .fault m := by
   cases x <;> simp [Res.ofDec]
 
-/-! ## v1 variables: the only faulting decoder -/
+/-! ## v1 variables (`Script.ToCore`) -/
 
-/-- JSON shapes `Script.ToCore` (api/v1) handles without panicking. -/
-def v1Safe : JVal → Bool
-  | .str _ | .obj _ | .null => true
-  | _ => false
+theorem varV1_ne_fault (v : JVal) (m : String) : varV1 v ≠ .fault m := by
+  cases v <;> simp [varV1, v1NonStringScalar, Res.ofDec_ne_fault]
 
-theorem varV1_fault_iff (v : JVal) : (∃ m, varV1 v = .fault m) ↔ v1Safe v = false := by
-  cases v <;> simp [varV1, v1Safe, v1NonStringScalar, Res.ofDec_ne_fault]
+theorem combineV1_ne_fault (k : String) (a : Res String) (b : Res VarMap)
+    (ha : ∀ m, a ≠ .fault m) (hb : ∀ m, b ≠ .fault m) (m : String) : combineV1 k a b ≠ .fault m := by
+  cases a <;> cases b <;> simp_all [combineV1]
 
-theorem varsV1Loop_fault_iff (kvs : List (String × JVal)) :
-    (∃ m, varsV1Loop kvs = .fault m) ↔ ∃ kv ∈ kvs, v1Safe kv.2 = false := by
-  induction kvs with
+theorem varsV1Loop_ne_fault (kvs : List (String × JVal)) (m : String) : varsV1Loop kvs ≠ .fault m := by
+  induction kvs generalizing m with
   | nil => simp [varsV1Loop]
   | cons kv rest ih =>
     obtain ⟨k, v⟩ := kv
-    have hv := varV1_fault_iff v
-    simp only [List.mem_cons, exists_eq_or_imp]
-    rw [← ih, ← hv]
-    show (∃ m, combineV1 k (varV1 v) (varsV1Loop rest) = .fault m) ↔ _
-    cases h1 : varV1 v <;> cases h2 : varsV1Loop rest <;> simp [combineV1]
+    exact combineV1_ne_fault k _ _ (varV1_ne_fault v) ih m
 
-/-- C38: `decodeVarsV1` faults exactly when the `vars` object has (after the map
-    semantics of duplicate names) a member that is a number, a boolean or an array. -/
-theorem decodeVarsV1_fault_iff (vars : Option JVal) :
-    (∃ m, decodeVarsV1 vars = .fault m) ↔
-      ∃ kvs, vars = some (.obj kvs) ∧ ∃ kv ∈ mapOfList kvs, v1Safe kv.2 = false := by
+theorem decodeVarsV1_ne_fault (vars : Option JVal) (m : String) : decodeVarsV1 vars ≠ .fault m := by
   unfold decodeVarsV1
   split
   · simp
   · simp
-  · rename_i kvs
-    rw [varsV1Loop_fault_iff]
-    simp
-  · rename_i h1 h2 h3
-    constructor
-    · rintro ⟨m, hm⟩; cases hm
-    · rintro ⟨kvs, hk, _⟩; exact absurd hk (by intro h; exact h3 kvs (Option.some.inj h))
+  · exact varsV1Loop_ne_fault _ m
+  · simp
 
 /-! ## create transaction -/
 
@@ -83,6 +68,12 @@ theorem createV1_fault_from_vars (pt : String → Option String) (body : JVal) (
           exact ⟨_, hv⟩
         · cases h
         · cases h
+
+theorem createV1_ne_fault (pt : String → Option String) (body : JVal) (m : String) :
+    createV1 pt body ≠ .fault m := by
+  intro h
+  obtain ⟨vars, hv⟩ := createV1_fault_from_vars pt body m h
+  exact decodeVarsV1_ne_fault vars m hv
 
 theorem revertBodyV2_ne_fault (b : Option JVal) (m : String) : revertBodyV2 b ≠ .fault m := by
   unfold revertBodyV2
